@@ -398,6 +398,40 @@ mod not_wasm_scheduler {
   }
 }
 
+/// Verification hook (cargo feature `verif_hooks`): a scheduler whose spawned
+/// futures are handed to a pluggable sink, so that a checker decides which
+/// ready task is polled next. It goes through the crate's own
+/// `impl_scheduler_method!`, i.e. the real delay wrapper, `remote_handle` and
+/// `Remote::poll`.
+#[cfg(feature = "verif_hooks")]
+pub mod verif {
+  use super::*;
+
+  pub type LocalBoxedTask = Pin<Box<dyn Future<Output = ()> + 'static>>;
+
+  pub trait SpawnSink: Clone {
+    fn spawn(&self, fut: LocalBoxedTask);
+  }
+
+  #[derive(Clone)]
+  pub struct VerifScheduler<S>(pub S);
+
+  macro_rules! verif_sink_spawn {
+    ($pool: ident, $future: ident) => {
+      $pool.0.spawn(Box::pin($future))
+    };
+  }
+
+  impl<T, S> Scheduler<T> for VerifScheduler<S>
+  where
+    S: SpawnSink,
+    T: Future + 'static,
+    T::Output: TaskReturn,
+  {
+    impl_scheduler_method!(verif_sink_spawn);
+  }
+}
+
 #[cfg(all(test, not(target_arch = "wasm32"), feature = "tokio-scheduler"))]
 mod test {
   use crate::{ops::complete_status::CompleteStatus, prelude::*};
